@@ -292,5 +292,22 @@ CHECKS["C13"] = {
             "Sem.v; see known findings for F16.",
 }
 
+CHECKS["C02"] = {
+    "text": "Proof (closed under the global context), over an abstract world of (object, property) keys: a binding whose evaluation depends only on the keys it reads (frame) "
+            "and which, after evaluating, is connected to every key it read (coverage: static connections plus re-connected observer slots) equals the value of its "
+            "expression after setup() and after EVERY finite history of changes with notify -- re-pointing and nulling of intermediate pointers included, since they only "
+            "change the read set (C02_stays_current, invariant Current /\\ nothing-read-changed-unobserved by induction over the history); without coverage a binding goes stale "
+            "(C02_stale_without_coverage_refuted). That the real generated code has frame and coverage is NOT proved: the property itself is decided on the real output "
+            "per binding and history -- the support header is compiled against the API model (setters emit notify on change, connect/disconnect dispatch), setup() is "
+            "run, a random history of changes (boundary values, re-pointing incl. cycles, nulling, no-op changes) is applied through the setters and after setup and "
+            "after every step each target is compared with model/Sem.v's value of the source expression in the current world. Reads of non-constant properties without "
+            "notify must be rejected ('unobservable property'), constant ones accepted.",
+    "technique": "Coq proof of the currency invariant for all histories from frame + coverage (abstract signal model) + execution of real support headers on random histories against the reference semantics",
+    "design_ref": "5 C02",
+    "note": "PARTIAL with respect to the real code: frame and coverage of the generated code are tested, not proved (a model of propdep.rs exists in model/Passes.v and is tied "
+            "to the implementation by the K legs of C05-C07, but no theorem links it to Signals.v yet). Object deletion, queued connections and method results depending "
+            "on unobserved state are outside the property.",
+}
+
 NOT_YET = {
 }
